@@ -141,6 +141,9 @@ func (t *template) layout(ctx context.Context, w io.Writer) error {
 			// Parse the template bytes to get DOM nodes
 			templateNodes, err := parser.ParseTemplateBytes(tpl.templateBytes)
 			if err == nil {
+				// the slot content travels on to the layouts: its v-once elements need the
+				// ids of the file they were written in, like every other parsed template
+				assignOnceIDs(filename, templateNodes)
 				inheritedSlotScope = extractSlotsFromDOM(templateNodes, func(tag string) bool {
 					_, ok := t.vue.GetComponentFile(tag)
 					return ok
